@@ -79,6 +79,12 @@ func genVotes(r *vh.Rng, kind int64, malformed bool) VSpec {
 				vq.Cap.GPU = int64(r.Range(0, 4))
 			}
 		}
+		if root && vq.Cap.Mask == 4 && vq.Cap.GPU == 0 {
+			// Known quirk, kept out of the default streams (laws 113/114 fail on it at full strength):
+			// a root capability that lists only zero quantities is IsEmpty() and is replaced by the
+			// infinite resource (capacity.go:1339-1342), so "nvidia.com/gpu: 0" on root limits nothing.
+			vq.Cap.GPU = int64(r.Range(1, 4))
+		}
 		// guarantee <= capability where listed
 		if !root && r.Chance(1, 3) {
 			if r.Chance(2, 3) {
@@ -166,8 +172,8 @@ func genVotes(r *vh.Rng, kind int64, malformed bool) VSpec {
 	}
 	// ---- jobs and tasks ----
 	nj := r.Range(1, 6)
-	alloc := map[int64]*amounts{}   // per queue, subtree totals (for the boundary bias)
-	inq := map[int64]*amounts{}     // rough inqueue estimate
+	alloc := map[int64]*amounts{} // per queue, subtree totals (for the boundary bias)
+	inq := map[int64]*amounts{}   // rough inqueue estimate
 	get := func(m map[int64]*amounts, q int64) *amounts {
 		if m[q] == nil {
 			m[q] = &amounts{}
@@ -373,6 +379,11 @@ func genVotes(r *vh.Rng, kind int64, malformed bool) VSpec {
 				pq.Reqs = append(pq.Reqs, v)
 			}
 			s.Q1 = append(s.Q1, pq)
+			if len(pq.Reqs) == 1 {
+				// the same request through Allocatable: in a hierarchy Preemptive looks at the queue
+				// itself only, Allocatable walks the ancestors
+				s.Q1 = append(s.Q1, VQuery{Kind: 1, Target: q, Reqs: pq.Reqs})
+			}
 		}
 	}
 	for _, j := range s.Jobs {
